@@ -174,7 +174,7 @@ def run_cbmc(binary, h, tier, sched, workdir):
     unwind = t.get("unwind", h.get("unwind", 1))
     unwindset = t.get("unwindset", h.get("unwindset", []))
     solver = t.get("solver", h.get("solver", "default"))
-    timeout = t.get("timeout", h.get("timeout", 600))
+    timeout = t.get("timeout", h.get("timeout", 1500))
     mem = t.get("mem_gb", h.get("mem_gb", 6))
     extra = list(h.get("cbmc_extra", [])) + list(t.get("cbmc_extra", []))
     cmd = ["cbmc", binary, "--function", h["function"], "--unwind", str(unwind)]
